@@ -119,7 +119,7 @@ func runC14Client(t *rapid.T) {
 	if err != nil {
 		t.Fatalf("tmp: %v", err)
 	}
-	defer os.RemoveAll(dir)
+	defer evid.RetireDir(dir)
 	port, err := freePort()
 	if err != nil {
 		t.Skip("inconclusive: no free port")
